@@ -88,3 +88,29 @@ PROPS["C06"] = dict(
     rule="BFS over note/pedal/controller/time histories (30 ms, 5 s, 120 s steps, total <= 600 s) x start configurations; distinct by full implementation snapshot + simulated time",
     assumptions=RT_ASSUME,
 )
+
+E2_ASSUME = [
+    "families are finite and enumerated completely; inputs outside the listed families are not covered",
+    "gcc 12 AddressSanitizer (+ -D_GLIBCXX_SANITIZE_VECTOR, -fsanitize=bounds-strict on the library layer) is the memory-safety oracle; CPU-time budgets (ITIMER_PROF) are the termination oracle",
+]
+PROPS["C15"] = dict(
+    level="exploration", engine="enum", title="WOPN/OPNI serialisation round-trips and never writes past its buffer",
+    technique="exhaustive enumeration of finite value/size/byte-string families against a field-by-field round-trip oracle with guard bytes (narrow seam: wopn_file.c called directly)",
+    level_text="Every value of the listed families (each instrument field over its full range one at a time, all name lengths, bank numbers, counts, header values, blank/delay pairs, versions 1/2), every destination size 0..needed+2, "
+               "and every single-byte header substitution / listed accepted shape is saved and loaded on the real code and compared with the expectation derived from the statement. Complete for those families, silent outside them.",
+    level_note="domain decisions: midi_velocity_offset and the pseudo-8-op flag are not carried by the format and are kept 0; version 2 encodes 'blank' as 'both delays zero' (equality modulo that documented canonicalisation); "
+               "names compare as C strings; 'too small' is measured against the bytes a successful save really writes (the size calculator reports 2 bytes more than version 1 needs)",
+    legs=[Leg("roundtrip", ["models/c15_wopn.cpp"], "asan", [], [])],
+    rule="mixed-radix index -> one case per family member; a case is non-trivial when a save succeeded and the loaded value was compared field by field, when guard bytes were checked for a destination size, or when the loader accepted the byte string",
+    assumptions=E2_ASSUME,
+)
+PROPS["C02"] = dict(
+    level="exploration", engine="enum", title="untrusted bank data is rejected or loaded safely; loaded banks are playable",
+    technique="exhaustive enumeration of truncations, header/instrument byte substitutions, full 16-bit version and field ranges and short tails on exact-size heap blocks under ASan, followed by a note/bend/controller matrix under a CPU-time budget on every accepted bank and every instrument field value; renders on real emulator cores for every register-image byte value",
+    level_text="All listed byte strings go through WOPN_LoadBankFromMem / WOPN_LoadInstFromMem / opn2_openBankData on a block of exactly the given size; all 36 instrument fields are swept over their full ranges through opn2_setInstrument and played "
+               "(keys x bends x bend ranges x volume models x brightness x melodic/percussion). Oracle: defined return values, no sanitizer report, every case inside its CPU budget.",
+    level_note="byte strings outside the families (e.g. several coordinated wrong fields) are not covered; allocation failure paths are not exercised; real-core renders use 3 cores in quick and 8 in thorough",
+    legs=[Leg("bank", ["models/c02_bank.cpp"], "asan", [], [], timeout_quick=2400)],
+    rule="one case per (family, index); non-trivial when the loader accepted the string or the instrument was installed and the whole play matrix / render completed",
+    assumptions=E2_ASSUME + ["null chips for the play matrix (the library layer computes registers; cores are exercised by the render family)"],
+)
